@@ -13,6 +13,7 @@ import (
 	"time"
 
 	"github.com/irai/packet"
+	"github.com/irai/packet/fastlog"
 	dhcp4 "github.com/irai/packet/handlers/dhcp4_spoofer"
 	"verifharness/drv"
 	"verifharness/gen"
@@ -322,6 +323,12 @@ func runDHCP(tb drv.TB, rec *drv.Rec, sub string, h dhcpHistory, or dhcpOracles)
 }
 
 func runDHCPOn(tb drv.TB, rec *drv.Rec, sub string, h dhcpHistory, or dhcpOracles, env *dhcpEnv, res *dhcpResult, led *dLedger) {
+	if h.Cfg.Quiet { // process-wide setting: histories run one after the other in a shard
+		packet.Logger.SetLevel(fastlog.LevelError)
+		dhcp4.Logger.SetLevel(fastlog.LevelError)
+		defer packet.Logger.SetLevel(fastlog.LevelInfo)
+		defer dhcp4.Logger.SetLevel(fastlog.LevelInfo)
+	}
 	n := dNets[h.Cfg.Net]
 	ourID := n.host
 	violate := func(step int, sig, format string, args ...interface{}) bool {
